@@ -2,7 +2,6 @@
    result and the Python semantics at the given points, report the hypothesis flags of the theorems. -/
 import Driver.Wire
 import MxlVerif.Model.C06
-import MxlVerif.Model.C06Hyp
 import MxlVerif.Generated.C06Tables
 open Lean Mxl Mxl.Wire Mxl.C06
 namespace Driver.H_c06
@@ -43,18 +42,6 @@ partial def jPyExpr (j : Json) : Except String PyExpr := do
   | [.str "unsupported"] => pure .unsupported
   | _ => .error s!"bad py expr {j.compress}"
 
-partial def jPyStmt (j : Json) : Except String PyStmt := do
-  match ← jArr j with
-  | [.str "assign", .str x, e] => pure (.assign x (← jPyExpr e))
-  | [.str "tuple", xs, es] => pure (.tupleAssign (← jList jStr xs) (← jList jPyExpr es))
-  | [.str "aug", .str x, op, e] => pure (.augAssign x (← jBinOp op) (← jPyExpr e))
-  | [.str "if", c, t, e] => pure (.ifs (← jPyExpr c) (← jList jPyStmt t) (← jList jPyStmt e))
-  | [.str "ret", e] => pure (.ret (← jPyExpr e))
-  | [.str "retnone"] => pure .retNone
-  | [.str "skip"] => pure .skip
-  | [.str "opaque"] => pure .unhandled
-  | _ => .error s!"bad py stmt {j.compress}"
-
 def jGVal (j : Json) : Except String GVal := do
   match ← jArr j with
   | [.str "flt", q] => pure (.flt (← jRat q))
@@ -64,11 +51,36 @@ def jGVal (j : Json) : Except String GVal := do
   | [.str "other"] => pure .other
   | _ => .error s!"bad global {j.compress}"
 
+def jImpItem (j : Json) : Except String (String × ImpItem) := do
+  match ← jArr j with
+  | [.str n, .arr #[.str "flt", q]] => pure (n, .flt (← jRat q))
+  | [.str n, .arr #[.str "int", q]] => pure (n, .int (← jRat q))
+  | [.str n, .arr #[.str "objs", ps]] => pure (n, .objs (← jAssoc jGVal ps))
+  | [.str n, .arr #[.str "other"]] => pure (n, .other)
+  | _ => .error s!"bad import item {j.compress}"
+
+partial def jPyStmt (j : Json) : Except String PyStmt := do
+  match ← jArr j with
+  | [.str "assign", .str x, e] => pure (.assign x (← jPyExpr e))
+  | [.str "tuple", xs, es] => pure (.tupleAssign (← jList jStr xs) (← jList jPyExpr es))
+  | [.str "aug", .str x, op, e] => pure (.augAssign x (← jBinOp op) (← jPyExpr e))
+  | [.str "multi", xs, e] => pure (.multiAssign (← jList jStr xs) (← jPyExpr e))
+  | [.str "unpack", xs, e] => pure (.unpackAssign (← jList jStr xs) (← jPyExpr e))
+  | [.str "import", items] => pure (.importS (← jList jImpItem items))
+  | [.str "if", c, t, e] => pure (.ifs (← jPyExpr c) (← jList jPyStmt t) (← jList jPyStmt e))
+  | [.str "ret", e] => pure (.ret (← jPyExpr e))
+  | [.str "retnone"] => pure .retNone
+  | [.str "skip"] => pure .skip
+  | [.str "opaque"] => pure .unhandled
+  | _ => .error s!"bad py stmt {j.compress}"
+
 def jFnDef (j : Json) : Except String FnDef := do
   pure { name := ← jStr (← field j "name"),
          params := ← jList jStr (← field j "params"),
          body := ← jList jPyStmt (← field j "body"),
-         globals := ← jAssoc jGVal (fieldD j "globals" (.arr #[])) }
+         globals := ← jAssoc jGVal (fieldD j "globals" (.arr #[])),
+         nPosonly := ← jNat (fieldD j "nposonly" (.num 0)),
+         otherParams := ← jBool (fieldD j "otherparams" (.bool false)) }
 
 def jSUn : Json → Except String SUn
   | .str "pos" => pure .pos | .str "neg" => pure .neg
@@ -132,6 +144,7 @@ def jVal : Json → Except String Val
 def valJ : Val → Json
   | .num q => ratJ q
   | .bool b => .bool b
+  | .obj _ => .str "nonnum"
 
 def optValJ : Option Val → Json
   | some v => valJ v
@@ -168,13 +181,6 @@ def handle (j : Json) : Except String Json := do
     | .ok e => vals := vals.push (optValJ (evalS (envOf env) e))
     | _ => vals := vals.push .null
   pure (Json.mkObj [("tr", trJ tr), ("vals", .arr vals), ("py", .arr pys),
-                    ("flags", flagsJ P d)])
-where
-  flagsJ (P : Prog) (d : FnDef) : Json :=
-    Json.mkObj [("progOk", .bool (progOk fuelN P)),
-                ("branchesReturn", .bool (branchesReturnB fuelN P)),
-                ("noBranchRebind", .bool (noRebindB fuelN P)),
-                ("condsAreCmp", .bool (condsCmpB fuelN P)),
-                ("fnOk", .bool (fnOk fuelN d))]
+                    ("flags", Json.mkObj [])])
 
 end Driver.H_c06
